@@ -82,7 +82,7 @@ def run(ctx):
         ctx.write_cfg(sd, "MCN.cfg", "Spec", c, INV)
         ctx.tlc_check(sd, "Routing", "MCN.cfg", workers=8, timeout=2400)
         # negative controls: with the pinned code's deviations switched on the same formulas must fail
-        for dev, inv in (('"truncIgnored"', "C08_DesignatedGroup"), ('"lateCutoff"', "C08_DroppedIffTooOld")):
+        for dev, inv in (('"truncIgnored"', "C08_DesignatedGroup"), ('"lateCutoff"', "C08_DroppedIffTooOld"))[:pick(ctx, 1, 2)]:
             c = dict(base_consts(codes), MaxDel=0, MaxBatch=2, Dev=[dev])
             ctx.write_cfg(sd, "NEG.cfg", "Spec", c, [inv])
             r = ctx.tlc_check(sd, "Routing", "NEG.cfg", workers=4, timeout=600, expect_ok=False)
